@@ -139,9 +139,13 @@ def apply_sections(body, sections, qual, g):
             # loop addressed by header text: the first loop at or after the nth match of the pattern
             if lp is None:
                 lp = rw.loops(body)
-            pat, nth = args
+            optional = len(args) > 2 and args[2]
+            pat, nth = args[0], args[1]
             ms = rw.find_matches(body, pat)
             if len(ms) < nth:
+                if optional:
+                    # `//@loop? "header"`: the invariant only helps a clause along — without the loop the clause itself decides
+                    continue
                 raise RuleMismatch("%s: loop anchor `%s` #%d not found (%d matches)" % (qual, pat, nth, len(ms)))
             cand = [k for k, (kw, ob) in enumerate(lp) if kw >= ms[nth - 1][0]]
             if not cand:
@@ -229,6 +233,8 @@ def parse_fn_block(lines):
                 sections.append(("sigrw", (words[1], words[3], count), ""))
             elif words[0] == "spec":
                 cur = ["spec", None, ""]
+            elif words[0] == "loop?" and not words[1].isdigit():
+                cur = ["loop", (words[1], int(words[2]) if len(words) > 2 else 1, True), ""]
             elif words[0] == "loop" and not words[1].isdigit():
                 cur = ["loop", (words[1], int(words[2]) if len(words) > 2 else 1), ""]
             elif words[0] == "loopend" and not words[1].isdigit():
